@@ -125,10 +125,21 @@ def run(seed, cases, max_ops=60, max_keys=40, tag="seq", life=False):
         return res
     res["report"] = json.load(open(rep))
     if os.path.exists(C.MODEL_BIN):
+        import subprocess, resource
+
+        def limits():
+            # a model built from a definition the translator could not extract may diverge:
+            # bound its memory and let the caller bound its time
+            resource.setrlimit(resource.RLIMIT_AS, (8 << 30, 8 << 30))
+
         with open(ops, "rb") as fin, open(model, "wb") as fout:
-            import subprocess
-            p = subprocess.run([C.MODEL_BIN], stdin=fin, stdout=fout, stderr=subprocess.PIPE, timeout=3600)
-        if p.returncode == 0:
+            try:
+                p = subprocess.run([C.MODEL_BIN], stdin=fin, stdout=fout, stderr=subprocess.PIPE,
+                                   timeout=300 + cases // 10, preexec_fn=limits)
+                mrc, merr = p.returncode, p.stderr.decode("utf-8", "replace")
+            except subprocess.TimeoutExpired:
+                mrc, merr = 124, "the model driver did not finish within its time limit"
+        if mrc == 0:
             res["model_ran"] = True
             lo = open(ops).read().split("\n")
             la = open(impl).read().split("\n")
@@ -148,7 +159,7 @@ def run(seed, cases, max_ops=60, max_keys=40, tag="seq", life=False):
                                          "classes": sorted(classify(o, x, y) | ({"C18"} if panic_seen else set())),
                                          "prefix": lo[start + 1:i + 1] if i - start < 400 else lo[i - 30:i + 1]})
         else:
-            res["model_error"] = p.stderr.decode("utf-8", "replace")[-1000:]
+            res["model_error"] = "exit %d: %s" % (mrc, merr[-1000:])
     return res
 
 
